@@ -338,7 +338,11 @@ func execFWD(a []sx) (out sx) {
 			return T("res", I(int64(i)), I(int64(len(w.writes))), boolSx(errors.Is(err, errInjected)))
 		}
 	}
-	return T("res", A("none"), I(int64(len(w.writes))), A("true"))
+	rec := T("writes")
+	for _, x := range w.writes {
+		rec.list = append(rec.list, H(x))
+	}
+	return T("res", A("none"), I(int64(len(w.writes))), A("true"), rec)
 }
 
 func execENC(op string, a []sx) sx {
@@ -458,7 +462,7 @@ func genENC(c *ctx, faults bool) {
 			}
 		}
 	}
-	if faults {
+	{
 		// the file writer driven directly: any row counts (0 = empty block), failure at every write index and one past the end
 		recEnc := func(b []byte) []byte {
 			w := avro.NewWriteBuf(nil)
@@ -484,6 +488,10 @@ func genENC(c *ctx, faults bool) {
 				ops.list = append(ops.list, T("b", I(int64(rows)), H(data)))
 			}
 			total := 1 + 4*nb
+			if !faults {
+				c.emit(T("fwd", A(codec), I(0), I(0), ops))
+				continue
+			}
 			for k := 1; k <= total+1; k++ {
 				for acc := 0; acc <= 1; acc++ {
 					c.emit(T("fwd", A(codec), I(int64(k)), I(int64(acc)), ops))
